@@ -836,7 +836,7 @@ Section Proofs.
     In h (comb_from fuel d loc tail reg ms) ->
     exists k, (d <= k < d + fuel)%nat /\ In h (comb_hits_at loc tail reg ms k).
   Proof.
-    induction fuel as [|f IH]; intros d loc tail reg ms h H; cbn in H; [tauto|].
+    induction fuel as [|f IH]; intros d loc tail reg ms h H; cbn [PCR0Search.comb_from] in H; [destruct H|].
     destruct (comb_hits_at loc tail reg ms d) as [|h0 hs] eqn:E.
     - destruct (IH _ _ _ _ _ _ H) as (k & Hk & Hin). exists k. split; [lia|exact Hin].
     - exists d. split; [lia|]. now rewrite E.
